@@ -8,14 +8,26 @@
 //   stream     every byte delivered by the reader returned from Do, read until an error
 //   err        0 = io.EOF (end of request), 1 = other error
 // A panic inside the client is reported by the framework as [-2].
+//
+// op 2 (input starts with the tag 2): Transport.RoundTrip end to end over a loopback TCP connection:
+// input : [2 method scheme host remote path query proto clen [[hname [hval ...]] ...] root [[ename eval] ...] body resp]
+// output: [written rterr status body bodyerr]
+//   written  every byte the fake responder received (complete request), rterr 0 = RoundTrip ok, 1 connect, 2 write,
+//   3 read-response-header error; status/body of the *bfe_http.Response; bodyerr 0 = EOF, 1 = other
 package main
 
 import (
 	"io"
+	"io/ioutil"
+	"net"
+	"net/url"
+	"strings"
+	"time"
 
 	"verif/harness/hv"
 
 	"github.com/bfenetworks/bfe/bfe_fcgi"
+	"github.com/bfenetworks/bfe/bfe_http"
 )
 
 type mconn struct {
@@ -57,8 +69,144 @@ func (r *chunkReader) Read(p []byte) (int, error) {
 	return n, nil
 }
 
+var ln net.Listener
+
+func setup(tier string) {
+	var err error
+	ln, err = net.Listen("tcp", "127.0.0.1:0")
+	if err != nil {
+		panic(err)
+	}
+}
+
+// complete reports whether b holds a whole request: records up to and including the empty STDIN record
+func complete(b []byte) bool {
+	for len(b) >= 8 {
+		n := 8 + int(b[4])<<8 + int(b[5]) + int(b[6])
+		if len(b) < n {
+			return false
+		}
+		if b[1] == 5 && b[4] == 0 && b[5] == 0 {
+			return true
+		}
+		b = b[n:]
+	}
+	return false
+}
+
+func isToken(s string) bool {
+	if s == "" {
+		return false
+	}
+	for i := 0; i < len(s); i++ {
+		c := s[i]
+		ok := c >= '0' && c <= '9' || c >= 'a' && c <= 'z' || c >= 'A' && c <= 'Z' || strings.IndexByte("!#$%&'*+-.^_`|~", c) >= 0
+		if !ok {
+			return false
+		}
+	}
+	return true
+}
+
+func implRT(l hv.L) hv.Val {
+	req := new(bfe_http.Request)
+	req.Method = hv.AsStr(l[1])
+	req.URL = &url.URL{Scheme: hv.AsStr(l[2]), Host: ln.Addr().String(), Path: hv.AsStr(l[5]), RawQuery: hv.AsStr(l[6])}
+	req.Host = hv.AsStr(l[3])
+	req.RemoteAddr = hv.AsStr(l[4])
+	req.Proto = hv.AsStr(l[7])
+	req.ContentLength = hv.AsInt(l[8])
+	req.Header = bfe_http.Header{}
+	seen := map[string]bool{}
+	for _, h := range hv.AsList(l[9]) {
+		hl := hv.AsList(h)
+		k := hv.AsStr(hl[0])
+		m := strings.Replace(strings.ToUpper(k), "-", "_", -1)
+		if !isToken(k) || seen[m] {
+			return hv.Err(8)
+		}
+		seen[m] = true
+		for _, v := range hv.AsList(hl[1]) {
+			req.Header.Add(k, hv.AsStr(v))
+		}
+		if len(hv.AsList(hl[1])) == 0 {
+			return hv.Err(8)
+		}
+	}
+	env := map[string]string{}
+	seenE := map[string]bool{}
+	for _, e := range hv.AsList(l[11]) {
+		el := hv.AsList(e)
+		k := hv.AsStr(el[0])
+		if !isToken(k) || seenE[strings.ToUpper(k)] {
+			return hv.Err(8)
+		}
+		seenE[strings.ToUpper(k)] = true
+		env[k] = hv.AsStr(el[1])
+	}
+	for _, c := range req.URL.Path + req.URL.RawQuery { // only characters EscapedPath leaves alone
+		if !(c >= '0' && c <= '9' || c >= 'a' && c <= 'z' || c >= 'A' && c <= 'Z' || strings.ContainsRune("/-._~=&", c)) {
+			return hv.Err(8)
+		}
+	}
+	body := append([]byte(nil), hv.AsBytes(l[12])...)
+	req.Body = ioutil.NopCloser(&chunkReader{b: body, k: 4096})
+	resp := append([]byte(nil), hv.AsBytes(l[13])...)
+
+	got := make(chan []byte, 1)
+	go func() {
+		c, err := ln.Accept()
+		if err != nil {
+			got <- nil
+			return
+		}
+		defer c.Close()
+		c.SetDeadline(time.Now().Add(5 * time.Second))
+		var rb []byte
+		buf := make([]byte, 65536)
+		for !complete(rb) {
+			n, err := c.Read(buf)
+			rb = append(rb, buf[:n]...)
+			if err != nil {
+				break
+			}
+		}
+		c.Write(resp)
+		got <- rb
+	}()
+	tr := &bfe_fcgi.Transport{Root: hv.AsStr(l[10]), EnvVars: env}
+	rsp, err := tr.RoundTrip(req)
+	rterr, status, bodyerr := 0, 0, 0
+	var rbody []byte
+	if err != nil {
+		switch err.(type) {
+		case bfe_fcgi.ConnectError:
+			rterr = 1
+		case bfe_fcgi.WriteRequestError:
+			rterr = 2
+		default:
+			rterr = 3
+		}
+	} else {
+		status = rsp.StatusCode
+		b, e := ioutil.ReadAll(rsp.Body)
+		rbody = b
+		if e != nil {
+			bodyerr = 1
+		}
+	}
+	written := <-got
+	return hv.L{hv.B(written), hv.I(rterr), hv.I(status), hv.B(rbody), hv.I(bodyerr)}
+}
+
 func impl(in hv.Val) hv.Val {
 	l := hv.AsList(in)
+	if _, isList := l[0].(hv.L); !isList {
+		if hv.AsInt(l[0]) == 2 {
+			return implRT(l)
+		}
+		return hv.Err(8)
+	}
 	pairs := map[string]string{}
 	for _, kv := range hv.AsList(l[0]) {
 		p := hv.AsList(kv)
@@ -240,5 +388,5 @@ func gen(r *hv.Rng, i int, tier string) (string, hv.Val) {
 }
 
 func main() {
-	hv.Main(&hv.Spec{Prop: "C55", Gen: gen, Impl: impl, NQuick: 4000, NThorough: 150000})
+	hv.Main(&hv.Spec{Prop: "C55", Gen: gen, Impl: impl, Setup: setup, NQuick: 4000, NThorough: 150000})
 }
